@@ -734,6 +734,20 @@ def expr_lb(eng, f, e, self_field=None, depth=4):
             for pd, v in eng.req.get(f.key, {}).items():
                 if companion(f, pd)[0] == e["decl"]:
                     return v[0]
+            # ... or one that every call site fills with a value of a known minimum (the caller computed `min(remaining, 16 + length)` under
+            # `remaining >= 16`)
+            if depth > 0 and not any(x.get("k") in ("assign", "cassign") and lvalue_root(x["l"]) == e["decl"] for x in f.nodes()):
+                pd_ = [q["decl"] for q in f.params]
+                sites = eng.callers.get(f.key, [])
+                vals = []
+                for cf, cn in sites:
+                    args = facts.effective_call(cn).get("args", [])
+                    i_ = pd_.index(e["decl"])
+                    if len(args) <= i_:
+                        return 0
+                    vals.append(site_value_lb(eng, cf, cn, args[i_], depth - 1))
+                if vals:
+                    return min(vals)
             return 0
         if e.get("dk") == "local" and depth > 0:
             ds = local_defs(f).get(e["decl"], [])
@@ -760,6 +774,31 @@ def expr_lb(eng, f, e, self_field=None, depth=4):
         if a == "INV" or b == "INV":
             return "INV"  # grows from the current size: preserves the invariant
         return a + b
+    return 0
+
+
+def site_value_lb(eng, cf, cn, a, depth=3):
+    """Constant lower bound of the unsigned value a at call site cn of cf: constants, min / max / +, single-definition locals whose operands
+    still hold their values, and what the must-facts at the site say about a variable (comparisons, validator truths)."""
+    a = strip_all_casts(a)
+    c = const_value(a)
+    if c is not None:
+        return c
+    k = a.get("k")
+    if k == "sizeof" and a.get("cv") is not None:
+        return a["cv"]
+    if k == "call" and callee_name(a) in ("std::min", "std::max"):
+        vs = [site_value_lb(eng, cf, cn, x, depth) for x in a.get("args", [])]
+        return (min if callee_name(a) == "std::min" else max)(vs) if vs else 0
+    if k == "bin" and a.get("op") == "+":
+        return site_value_lb(eng, cf, cn, a["l"], depth) + site_value_lb(eng, cf, cn, a["r"], depth)
+    if k == "ref" and a.get("dk") in ("local", "param"):
+        lb, _ = eng.facts_lb(cf, cn, a["decl"], None)
+        if a.get("dk") == "local" and depth > 0:
+            d = facts.current_definition(cf, a) if cf.cfg_raw else None
+            if d is not None:
+                lb = max(lb, site_value_lb(eng, cf, cn, d, depth - 1))
+        return lb
     return 0
 
 
@@ -930,6 +969,19 @@ def rule_pairs(eng, ctx):
                         if kk not in eng.cursor_ok:
                             eng.cursor_ok[kk] = cursor_pair(eng, f, pr.base, svar)
                         ok, why = eng.cursor_ok[kk]
+                        if not ok and f.cfg_raw:
+                            # a size cut down from the cursor's remaining size: `n = min(remaining, ...)` with (cursor, remaining) a cursor pair
+                            d0 = facts.current_definition(f, sa)
+                            d0 = strip_all_casts(d0) if d0 is not None else {}
+                            if d0.get("k") == "call" and callee_name(d0) == "std::min":
+                                for x in d0.get("args", []):
+                                    xs = strip_all_casts(x)
+                                    if xs.get("k") == "ref" and xs.get("dk") == "local":
+                                        k2 = (f.key, pr.base, xs["decl"])
+                                        if k2 not in eng.cursor_ok:
+                                            eng.cursor_ok[k2] = cursor_pair(eng, f, pr.base, xs["decl"])
+                                        if eng.cursor_ok[k2][0]:
+                                            ok, why = True, "size is min(%s, ...): %s" % (xs["decl"].split(":")[-1], eng.cursor_ok[k2][1])
                 elif pr.kind == "vec":
                     ok = sa.get("k") == "call" and (sa.get("callee") or {}).get("nm") == "size" and canon(sa.get("obj")) == pr.base and pr.off == 0
                     why = "container data()/size() pair" if ok else why
@@ -1521,10 +1573,18 @@ def justify_copy(eng, f, c, dst, src, ln, managed=False):
             else:
                 # guarded length: L <= size - off  (and size >= off)
                 g = None
-                for a in fs:
+                lval = canon(strip_all_casts(facts.expand(f, ln)))
+                fs2 = list(fs)
+                if not any(a[0] == "cmp" and lval in (canon(strip_all_casts(facts.expand(f, a[4]))), canon(strip_all_casts(facts.expand(f, a[5])))) for a in fs2):
+                    # the guard may sit in a spliced-in helper whose outcome is carried by a result local: the path-sensitive facts keep it
+                    try:
+                        fs2 += [a for a in paths.facts_at(f, c) if a not in fs2]
+                    except Exception:
+                        pass
+                for a in fs2:
                     if a[0] == "cmp":
                         for x, y, o in ((a[4], a[5], a[2]), (a[5], a[4], facts._flip_op(a[2]))):
-                            if o in ("<=", "<") and canon(strip_all_casts(x)) == lcan:
+                            if o in ("<=", "<") and (canon(strip_all_casts(x)) == lcan or canon(strip_all_casts(facts.expand(f, x))) == lval):
                                 yy = strip_all_casts(facts.expand(f, y))
                                 if yy.get("k") == "bin" and yy.get("op") == "-" and canon(strip_all_casts(yy["l"])) == sdecl and const_value(yy["r"]) == ps.off:
                                     g = a
